@@ -1,9 +1,8 @@
-\* one stream, every script of the catalogue, repaired model: every property
-CONSTANTS Streams = {1} Choices <- ChOne BadBatches <- MCBad InitHeight = 1 MaxHeight = 3
+\* repaired; one stream, the whole catalogue, duplicates, three heights
+CONSTANTS Streams <- {1} Choices <- ChOne BadBatches <- MCBad InitHeight = 1 MaxHeight = 3
   InputCap = 2 OutCap = 1 MaxDup = 2 MaxExtra = 2 MaxGot = 2
-  FixNilState = TRUE FixBlock = TRUE FixReFin = TRUE SeqWindow = 8 Mut = "none"
+  FixNilState = TRUE FixBlock = TRUE FixReFin = TRUE SeqWindow = 8 BufBound = 8 Mut = "none"
 INIT Init
 NEXT Next
-INVARIANTS TypeOK DeliveredIsMeant BadStreamNeverDelivers DeliveredEqualsSent AtMostOneProposalPerStream
-  NoDeliveryForPastHeight RunsAtOwnHeight RegisteredStarted FutureWaits DemuxNeverStops BufferBounded
+INVARIANTS TypeOK DeliveredIsMeant BadStreamNeverDelivers DeliveredEqualsSent NoDeliveryForPastHeight RunsAtOwnHeight RegisteredStarted FutureWaits AtMostOneProposalPerStream DemuxNeverStops BufferBounded
 CHECK_DEADLOCK FALSE
